@@ -307,7 +307,9 @@ def r4_offsets(ck, F, R="C02-R4"):
         it = rf.arg_exprs(ext[0])[1]
         names = [x.x["path"].rsplit("::", 1)[-1] for x in it.walk() if x.k == "call"]
         fns = [x.x["path"] for x in it.walk() if x.k == "fn"]
-        ok = "chunks_exact" in names and any(f.endswith("u64>::from_be_bytes") for f in fns) and "rev" not in names
+        from .fmt import int_conv
+        convs = [int_conv(x.x.get("info") or {"path": x.x["path"]}) for x in it.walk() if x.k == "fn"]
+        ok = "chunks_exact" in names and any(cv is not None and cv[:2] == ("u64", "BE") and cv[2] == "read" for cv in convs) and "rev" not in names
         cx = [x for x in it.walk() if x.k == "call" and x.x["path"].endswith("chunks_exact")]
         ok = ok and cx and const_val(cx[0].a[1]) == 8
         ck.ob(R, "reader-table-order", ok, f"Block::read_from rebuilds the table with chunks_exact(8) -> u64::from_be_bytes in stored order", rf, ext[0])
